@@ -1,5 +1,5 @@
 #!/usr/bin/env python3
-"""Prints the markdown table of DESIGN.md §8 from /verif/seeded/*/meta.json and runs.log (last run per check)."""
+"""Prints the markdown table of DESIGN.md §8 from /verif/seeded/*/meta.json and runs.log (last run per check; an earlier miss is noted)."""
 import json, os, re, glob
 rows = []
 for d in sorted(glob.glob("/verif/seeded/*/")):
@@ -10,13 +10,14 @@ for d in sorted(glob.glob("/verif/seeded/*/")):
         for l in open(d + "runs.log"):
             m = re.search(r"check=(\S+) exit=(\d+) sites=\[(.*)\]", l)
             if m:
-                runs[m.group(1)] = (int(m.group(2)), m.group(3).split())
+                first_missed = runs.get(m.group(1), (None, None, False))[2] or int(m.group(2)) == 0
+                runs[m.group(1)] = (int(m.group(2)), m.group(3).split(), first_missed)
     notes = open(d + "notes.md").read()
     files = ", ".join(f.replace("src/", "") for f in meta["files_changed"])
     res = []
-    for c, (rc, sites) in sorted(runs.items()):
+    for c, (rc, sites, was_missed) in sorted(runs.items()):
         if rc == 1:
-            res.append(f"{c}: caught ({len(sites)} site(s), e.g. `{sites[0]}`)" if sites else f"{c}: caught")
+            res.append((f"{c}: caught ({len(sites)} site(s), e.g. `{sites[0]}`)" if sites else f"{c}: caught") + (" — missed at first, caught after the harness family was widened" if was_missed else ""))
         elif rc == 0:
             res.append(f"{c}: **missed**")
         else:
